@@ -397,10 +397,74 @@ class BuiltinMixin:
             return [(st, VIter([VInt(i) for i in range(l.as_long(), h.as_long())]))]
         return [(st, VRange(lo, hi))]
 
+    def flatten(self, xs: VList, st):
+        """assumed contract of itertools.chain(*xs) materialised by list(): the concatenation of the lists in order --
+        offsets off[0] = 0, off[k+1] = off[k] + len(xs[k]); result[off[k] + m] == xs[k][m]"""
+        self.assumed_contracts.add("itertools.chain(*lists) + list(): concatenation in order (offset characterisation)")
+        inner = xs.sort.elem
+        r = fresh(inner, "chain")
+        off = z3.Function("chain_off_%s" % xs.sort.name(), inner.z3(), xs.sort.z3(), z3.ArraySort(z3.IntSort(), z3.IntSort()))(r.t, xs.t)
+        n = xs.sort.len(xs.t)
+        k = z3.FreshConst(z3.IntSort(), "ck")
+        m = z3.FreshConst(z3.IntSort(), "cm")
+        xk = z3.Select(xs.sort.arr(xs.t), k)
+        st.pc.append(z3.Select(off, 0) == 0)
+        st.pc.append(z3.ForAll([k], z3.Implies(z3.And(k >= 0, k < n), z3.Select(off, k + 1) == z3.Select(off, k) + inner.len(xk))))
+        st.pc.append(inner.len(r.t) == z3.Select(off, n))
+        st.pc.append(z3.ForAll([k, m], z3.Implies(z3.And(k >= 0, k < n, m >= 0, m < inner.len(xk)),
+                                                  z3.Select(inner.arr(r.t), z3.Select(off, k) + m) == z3.Select(inner.arr(xk), m))))
+        st.pc.append(canonical_list(r.t, inner))
+        st.pc.append(inner.len(r.t) >= 0)
+        self.last_chain_offsets = off
+        return r
+
+    def bi_is_filtering(self, args, kw, st, cx, node):
+        "is_filtering(out, xs, 'qualified.Class'): out is the in-order subsequence of the elements of xs that are instances of the class"
+        out, xs, cq = args
+        cq = self.repo.canonical(cq.conc())
+        ls, xl = out.sort, xs.sort
+        fs = z3.Function("filt_src_%s_%s" % (ls.name(), xl.name()), ls.z3(), xl.z3(), z3.ArraySort(z3.IntSort(), z3.IntSort()))
+        fp = z3.Function("filt_pos_%s_%s" % (ls.name(), xl.name()), ls.z3(), xl.z3(), z3.ArraySort(z3.IntSort(), z3.IntSort()))
+        src = fs(out.t, xs.t)
+        pos = fp(out.t, xs.t)
+        q = z3.FreshConst(z3.IntSort(), "gq")
+        i = z3.FreshConst(z3.IntSort(), "gi")
+        n, m = xl.len(xs.t), ls.len(out.t)
+        sq = z3.Select(src, q)
+        pred = lambda x: self.type_test(x, cq, st)
+        eq = lambda o, x: val_eq(o, x)
+        body = z3.And(m <= n,
+                      z3.ForAll([q], z3.Implies(z3.And(q >= 0, q < m), z3.And(sq >= 0, sq < n, pred(list_get(xs, sq)),
+                                                                            eq(list_get(out, q), list_get(xs, sq))))),
+                      z3.ForAll([q], z3.Implies(z3.And(q >= 1, q < m), z3.Select(src, q - 1) < sq)),
+                      z3.ForAll([i], z3.Implies(z3.And(i >= 0, i < n, pred(list_get(xs, i))),
+                                                z3.And(z3.Select(pos, i) >= 0, z3.Select(pos, i) < m, z3.Select(src, z3.Select(pos, i)) == i))))
+        return [(st, VBool(body))]
+
+    def bi_is_flattening(self, args, kw, st, cx, node):
+        "is_flattening(result, lists): result is the in-order concatenation of the lists (spec counterpart of flatten)"
+        r, xs = args
+        if isinstance(xs, VTuple):
+            xs = lift_list(xs)
+        inner = xs.sort.elem
+        off = z3.Function("chain_off_%s" % xs.sort.name(), inner.z3(), xs.sort.z3(), z3.ArraySort(z3.IntSort(), z3.IntSort()))(r.t, xs.t)
+        n = xs.sort.len(xs.t)
+        k = z3.FreshConst(z3.IntSort(), "fk")
+        m = z3.FreshConst(z3.IntSort(), "fm")
+        xk = z3.Select(xs.sort.arr(xs.t), k)
+        body = z3.And(z3.Select(off, 0) == 0,
+                      z3.ForAll([k], z3.Implies(z3.And(k >= 0, k < n), z3.Select(off, k + 1) == z3.Select(off, k) + inner.len(xk))),
+                      inner.len(r.t) == z3.Select(off, n),
+                      z3.ForAll([k, m], z3.Implies(z3.And(k >= 0, k < n, m >= 0, m < inner.len(xk)),
+                                                   z3.Select(inner.arr(r.t), z3.Select(off, k) + m) == z3.Select(inner.arr(xk), m))))
+        return [(st, VBool(body))]
+
     def bi_list(self, args, kw, st, cx, node):
         if not args:
             return [(st, VTuple([], True))]
         v = args[0]
+        if isinstance(v, VChain):
+            return [(st, self.flatten(v.xs, st))]
         items = self.iter_items(v, st, cx)
         if items is not None and not isinstance(v, VList):
             return [(st, VTuple(items, True))]
@@ -894,6 +958,13 @@ class BuiltinMixin:
                 return [(st, VIter([VTuple([k, v]) for k, v in b.items]))]
             return [(st, VItems(b))]
         raise Unsupported("dict.%s" % m)
+
+
+class VChain(Val):
+    "itertools.chain(*xs) over a symbolic list of lists"
+
+    def __init__(self, xs):
+        self.xs = xs
 
 
 class VKeys(Val):
